@@ -33,6 +33,12 @@ def sweeps(col, pp, mons, hdepth_quick=3, hdepth_thorough=4, track_path=False):
                     repeat=True).run(1, col)
         e1.Explorer(pp, v, e1.W_DEFAULT, e1.seed_history_P() + [alphabets.T('A', 'Q', '30 uL')], alphabets.duplicate_list_sweep(),
                     mons, 'D/duplicate-lists', track_path).run(1, col)
+        # multi-well transfers that the first well can serve and a later one cannot (judged if a change lets them return),
+        # directly and as a recipe step
+        hm = alphabets.mid_refusal_seed(e1.seed_history_P())
+        e1.Explorer(pp, v, e1.W_DEFAULT, hm, alphabets.mid_refusal_sweep(), mons, 'M/mid-refusal', track_path).run(1, col)
+        e1.Explorer(pp, v, e1.W_DEFAULT, hm, alphabets.mid_refusal_sweep(), mons, 'M/mid-refusal/recipe', track_path,
+                    via_recipe=True).run(1, col)
         # two versions of one plate: distinct objects carrying the same name are different plates
         wv = dict(e1.W_DEFAULT, Pv=('plate', '500 uL', 2, 3, 'P'))
         hv = e1.seed_history_P() + [alphabets.T('B', ['Pv', f"({r}, {c})"], f"{10 * (r + c)} uL") for r in (1, 2) for c in (1, 2, 3)]
